@@ -14,7 +14,7 @@ ENGINE = "R"
 TECHNIQUE = "differential: one generated runcard solved under varied worker counts, target orders and target subsets; bitwise comparison"
 RULE = (
     "Generated base tiny runcard with 1-3 targets (LO/NLO/NNLO, fixed and threshold-crossing paths, 2-4 point grids, scale variation none / expanded / exponentiated with xif in {0.5, 2}, in half of the cases one target exactly on a matching scale with the lower nf and one beyond it, each also solved alone). "
-    "Variants of the same card: n_integration_cores in {1, 2, 3, -13, -14} (16 CPUs -> 3 and 2 workers), every "
+    "A third of the cards use linear interpolation. Variants of the same card: n_integration_cores in {1, 2, 3, -13, -14} (16 CPUs -> 3 and 2 workers), every "
     "permutation of the target list, every non-empty subset of the targets (a drawn selection of up to 5 (quick) / 9 (thorough) variants per "
     "base, always containing >=2 different worker counts). For every target, operator and error arrays must be "
     "tobytes()-identical in every variant that contains it. Non-trivial = >=2 variants with different worker counts and "
@@ -52,6 +52,7 @@ def strategy(tier):
         )
         if base["sv"] is not None and base["xif"] == 1.0:
             base["xif"] = draw(st.sampled_from((0.5, 2.0)))
+        base["is_log"] = draw(st.sampled_from((True, True, False)))  # what a worker process needs must travel with the job
         # half of the cases: one target sits exactly on a matching scale with the lower nf and another one lies beyond
         # that wall, so that the same segment is the final part of one target and an intermediate part of the other;
         # the on-wall target is then also solved alone
@@ -112,7 +113,7 @@ def check_case(case):
     base = case["base"]
     c = ru.full(base)
     n = len(c["xgrid"])
-    res.classes = [f"order={c['order'][0]}", f"targets={len(c['mugrid'])}", f"variants={len(case['variants'])}", f"sv={c['sv']}"]
+    res.classes = [f"order={c['order'][0]}", f"targets={len(c['mugrid'])}", f"variants={len(case['variants'])}", f"sv={c['sv']}", f"interpolation={'log' if c['is_log'] else 'linear'}"]
     outs = []
     for v in case["variants"]:
         card = copy.deepcopy(base)
